@@ -220,7 +220,9 @@ LOOP:
 
 		// 不匹配子元素，则恢复原有数据
 		ctx.Path = path
-		ctx.Delete(child.segment.Name)
+		if child.segment.Captures() { // 未写入参数的节点不能删除同名的参数，该参数可能来自于 [Matcher]。
+			ctx.Delete(child.segment.Name)
+		}
 	}
 
 	// 没有子节点匹配，len(p.Path)==0，且子节点不为空，可以判定与当前节点匹配。
